@@ -208,12 +208,14 @@ namespace occa {
   //   include_paths : Array
 
   hash_t kernelHeaderHash(const occa::json &props) {
-    return (
-      occa::hash(props["defines"])
-      ^ props["functions"]
-      ^ props["includes"]
-      ^ props["headers"]
-    );
+    // Hash the labelled values together: XOR-ing the individual value hashes
+    // lets equal values in two properties cancel
+    occa::json keyProps;
+    keyProps["defines"]   = props["defines"];
+    keyProps["functions"] = props["functions"];
+    keyProps["includes"]  = props["includes"];
+    keyProps["headers"]   = props["headers"];
+    return occa::hash(keyProps);
   }
 
   std::string assembleKernelHeader(const occa::json &props) {
